@@ -198,6 +198,11 @@ func (c *ColumnImage) MarshalJSON() ([]byte, error) {
 	if t, ok := c.Value.(time.Time); ok {
 		value = t.Format(time.RFC3339Nano)
 	}
+	if s, ok := c.Value.(string); ok && isCharacterType(c.ColumnType) {
+		// character data is stored base64-encoded whether it was scanned as string or as bytes,
+		// so that decoding does not have to guess whether "test" is text or base64
+		value = []byte(s)
+	}
 	return json.Marshal(&columnImageAlias{
 		KeyType:    c.KeyType,
 		ColumnName: c.ColumnName,
@@ -275,6 +280,13 @@ func (c *ColumnImage) UnmarshalJSON(data []byte) error {
 			}
 			actualValue = string(val)
 		case JDBCTypeBinary, JDBCTypeVarBinary, JDBCTypeLongVarBinary:
+			// byte slices are marshalled as base64 text
+			if str, ok := value.(string); ok {
+				if val, decodeErr := base64.StdEncoding.DecodeString(str); decodeErr == nil {
+					actualValue = val
+					break
+				}
+			}
 			actualValue = value
 		case JDBCTypeBit:
 			if number, ok := value.(json.Number); ok {
@@ -293,6 +305,14 @@ func (c *ColumnImage) UnmarshalJSON(data []byte) error {
 		Value:      actualValue,
 	}
 	return nil
+}
+
+func isCharacterType(jdbcType JDBCType) bool {
+	switch jdbcType {
+	case JDBCTypeChar, JDBCTypeVarchar, JDBCTypeLongVarchar:
+		return true
+	}
+	return false
 }
 
 func (c *ColumnImage) GetActualValue() interface{} {
